@@ -45,6 +45,17 @@ def jobs(variant, family, nbatch, env_of=None, opts=None, timeout=600, **kw):
     return out
 
 
+def miri_jobs(fams):
+    """Shards of `cargo +nightly miri run --features inproc -- <family>`: the in-process transport and the
+    generic ipc layer under the UB / data-race interpreter (the OS transport cannot run there)."""
+    out = []
+    for fam, n, opts in fams:
+        for b in range(n):
+            out.append({"variant": "inproc-miri", "runner": "miri", "family": fam, "batch": b, "nbatch": n, "env": {}, "opts": dict(opts),
+                        "timeout": 3000, "tool": "miri", "preload": False})
+    return out
+
+
 # ------------------------------------------------------------------ C01
 
 def c01_env(b):
@@ -113,6 +124,8 @@ def c02_require(agg):
         need.append("no real-time ordered pair of sends across different handles")
     if st.get("process_senders", 0) < 1:
         need.append("no sender process took part")
+    if st.get("batches_os-debug", 0) and st.get("forked_senders", 0) < 1:
+        need.append("no fork()ed sender with an inherited handle took part")
     return need
 
 
@@ -558,6 +571,8 @@ def c18_plan(tier, seed):
     out += jobs("os-debug", "c18", 1, None, {"rounds": 12 if q else 150}, timeout=3000)
     out += jobs("memfd-debug", "c18", 1, None, {"rounds": 6 if q else 60}, timeout=3000)
     if not q:
+        out += miri_jobs([("c19", 4, {"programs": 6}), ("c04", 2, {"cases": 3}), ("c05", 2, {"cases": 4, "cap": 20000, "huge": 0}),
+                          ("c14", 2, {"cases": 12}), ("c03", 2, {"cases": 3}), ("c03r", 1, {"rounds": 40})])
         vg = ["valgrind", "-q", "--error-exitcode=99", "--suppressions=%s/memcheck.supp" % os.path.dirname(os.path.abspath(__file__)),
               "--errors-for-leak-kinds=none", "--leak-check=no"]
         for fam, nb, env, opts in (("c01", 5, sb, {"cap": 1 << 18, "huge": 0}), ("c05", 2, {}, {"cases": 30, "huge": 0, "cap": 1 << 16}),
@@ -576,6 +591,8 @@ def c18_post(agg, results, workdir, inconclusive):
     tools = {}
     for job, recs, rc, err, wall in results:
         t = job.get("tool") or ("asan" if job["variant"] == "os-asan" else "ub_checks")
+        if job.get("tool") == "miri" and rc != 0 and not job.get("sanitizer") and "unsupported operation" in err:
+            inconclusive.append("miri shard %s/%d hit an unsupported operation" % (job["family"], job["batch"]))
         tools[t + ":" + job["family"]] = tools.get(t + ":" + job["family"], 0) + 1
         if job.get("tool") == "memcheck" and rc == 99 and not job.get("sanitizer"):
             agg["violations"].append({"t": "viol", "sig": "C18:memcheck-error:%s" % job["family"], "detail": {"stderr_tail": err[-1500:].splitlines()},
@@ -635,6 +652,8 @@ def c19_plan(tier, seed):
     for v in ("os-debug", "memfd-debug", "inproc-debug"):
         for j in jobs(v, "c19", nb, None, {"programs": 140 if tier == "quick" else 2200}, timeout=1500):
             out.append(j)
+    if tier != "quick":
+        out += miri_jobs([("c19", 8, {"programs": 6})])
     return out
 
 
@@ -963,7 +982,7 @@ PROPS = {
         "plan": c02_plan,
         "level": "exploration",
         "level_text": "Exploration: hundreds (quick) to thousands (thorough) of stamped concurrent histories with 1..8 sender handles "
-                      "(clones, clones that travelled through a channel, exec'd processes) are checked offline for integrity, exactly-once "
+                      "(clones, clones that travelled through a channel, exec'd processes that are handed a handle, fork()ed processes that inherit a copy of a handle which has already sent a multi-packet message) are checked offline for integrity, exactly-once "
                       "and the real-time order clause; schedules are reached by stress, CPU pinning, seeded delays and a deterministic "
                       "pause between the first and second packet of every multi-packet send. The exhaustive abstract packet-protocol model "
                       "the quantifier mentions belongs to another technique family and is not claimed.",
